@@ -170,6 +170,114 @@ theorem C01_seek_first_fixed : C01_seek_first true := by
   exact (filter_ge_eq_dropLt t
     (pmFold_sorted rs r (h r (by simp)).1 (h r (by simp)).2 (fun q hq => (h q (by simp [hq])).2))).symm
 
+/-! ### every script: the deduplicated iterator is a list iterator over the merged series -/
+
+/-- a trace up to and including the first `ValNone` / panic (calls made after the iterator is
+    exhausted are outside the `chunkenc.Iterator` contract) -/
+def trunc : List Obs → List Obs
+  | .sample x :: r => .sample x :: trunc r
+  | o :: _ => [o]
+  | [] => []
+
+/-- what a script observes on a list iterator positioned on the head of `L` -/
+def specP : List Sample → List Call → List Obs
+  | _, [] => []
+  | L, .next :: cs =>
+    match L.tail with
+    | [] => [.none]
+    | y :: r => .sample y :: specP (y :: r) cs
+  | L, .seek t :: cs =>
+    match dropLt t L with
+    | [] => [.none]
+    | y :: r => .sample y :: specP (y :: r) cs
+
+/-- … and on a fresh list iterator over `L` -/
+def specF (L : List Sample) : List Call → List Obs
+  | [] => []
+  | .next :: cs =>
+    match L with
+    | [] => [.none]
+    | y :: r => .sample y :: specP (y :: r) cs
+  | .seek t :: cs =>
+    match dropLt t L with
+    | [] => [.none]
+    | y :: r => .sample y :: specP (y :: r) cs
+
+theorem runCalls_specP {σ : Type} {o : Ops σ} {V : σ → Prop} {abs : σ → List Sample}
+    (h : ListLike o V abs) : ∀ (cs : List Call) (s : σ), V s → abs s ≠ [] →
+      trunc (runCalls o cs s) = specP (abs s) cs := by
+  intro cs
+  induction cs with
+  | nil => intro s _ _; rfl
+  | cons c cs ih =>
+    intro s hV hne
+    have key : ∀ (r : σ × Bool) (L' : List Sample), V r.1 → abs r.1 = L' → r.2 = !L'.isEmpty →
+        trunc (if o.bad r.1 then [Obs.panic] else if r.2 then
+          (match o.atS r.1 with
+            | some x => Obs.sample x :: runCalls o cs r.1
+            | none => [Obs.panic]) else Obs.none :: runCalls o cs r.1) =
+        (match L' with
+          | [] => [Obs.none]
+          | y :: q => Obs.sample y :: specP (y :: q) cs) := by
+      intro r L' hV' habs hok
+      simp only [h.bad _ hV', Bool.false_eq_true, if_false, hok]
+      cases hL : L' with
+      | nil => simp [trunc]
+      | cons y q =>
+        have hne' : abs r.1 ≠ [] := by rw [habs, hL]; simp
+        simp only [List.isEmpty_cons, Bool.not_false, if_true]
+        rw [h.atS _ hV' hne', habs, hL]
+        simp only [List.head?_cons, trunc]
+        rw [ih _ hV' hne', habs, hL]
+    cases c with
+    | next =>
+      simp only [runCalls, specP]
+      exact key (o.next s) _ (h.nextV s hV hne) (h.nextAbs s hV hne) (h.nextOk s hV hne)
+    | seek t =>
+      simp only [runCalls, specP]
+      exact key (o.seek t s) _ (h.seekV s t hV hne) (h.seekAbs s t hV hne) (h.seekOk s t hV hne)
+
+theorem run_specF {i : AnyIt} {L : List Sample} (hg : GoodL i L) (cs : List Call) :
+    trunc (i.run cs) = specF L cs := by
+  obtain ⟨V, abs, h, hi⟩ := hg
+  cases cs with
+  | nil => rfl
+  | cons c cs =>
+    have key : ∀ (r : i.σ × Bool) (L' : List Sample), V r.1 → abs r.1 = L' → r.2 = !L'.isEmpty →
+        trunc (if i.ops.bad r.1 then [Obs.panic] else if r.2 then
+          (match i.ops.atS r.1 with
+            | some x => Obs.sample x :: runCalls i.ops cs r.1
+            | none => [Obs.panic]) else Obs.none :: runCalls i.ops cs r.1) =
+        (match L' with
+          | [] => [Obs.none]
+          | y :: q => Obs.sample y :: specP (y :: q) cs) := by
+      intro r L' hV' habs hok
+      simp only [h.bad _ hV', Bool.false_eq_true, if_false, hok]
+      cases hL : L' with
+      | nil => simp [trunc]
+      | cons y q =>
+        have hne' : abs r.1 ≠ [] := by rw [habs, hL]; simp
+        simp only [List.isEmpty_cons, Bool.not_false, if_true]
+        rw [h.atS _ hV' hne', habs, hL]
+        simp only [List.head?_cons, trunc]
+        rw [runCalls_specP h cs _ hV' hne', habs, hL]
+    cases c with
+    | next =>
+      simp only [AnyIt.run, runCalls, specF]
+      exact key (i.ops.next i.st) _ hi.nextV hi.nextAbs hi.nextOk
+    | seek t =>
+      simp only [AnyIt.run, runCalls, specF]
+      exact key (i.ops.seek t i.st) _ (hi.seekV t) (hi.seekAbs t) (hi.seekOk t)
+
+/-- **C01, any script** (`node_refines_list` at top level).  For every sequence of `Next`/`Seek`
+    calls (any targets, also going back) the deduplicated iterator shows, up to its exhaustion,
+    exactly what a plain list iterator over the merged series `pmFold r rs` shows: no panic, no
+    sample out of order, no sample repeated or lost by a `Seek`. -/
+theorem C01_script (r : List Sample) (rs : List (List Sample)) (cs : List Call)
+    (h : ∀ q ∈ r :: rs, ∀ x ∈ q, minT < x.t) :
+    trunc ((mk true false r rs).run cs) = specF (pmFold r rs) cs :=
+  run_specF (mk_goodL r rs h) cs
+
 /-! ### int64 -/
 
 /-- the value fits Go's `int64` -/
